@@ -102,6 +102,7 @@ func main() {
 	mutSites = runMut(prog, fns, handlers)
 	emitMut(outDir, names, facts)
 	emitStartup(outDir, prog, mainPkg)
+	emitSvc(outDir, prog, fns)
 	b, _ := json.MarshalIndent(map[string]interface{}{"functions": facts, "order": names, "cache_write_sites": mutSites}, "", " ")
 	_ = os.WriteFile(outDir+"/facts.json", b, 0o644)
 }
